@@ -9,6 +9,7 @@ import (
 	"testing"
 
 	"github.com/jcmturner/gokrb5/v8/crypto"
+	"github.com/jcmturner/gokrb5/v8/crypto/rfc4757"
 	"github.com/jcmturner/gokrb5/v8/types"
 	"pgregory.net/rapid"
 
@@ -134,6 +135,44 @@ func eval(c Case) (v evid.Verdict, trivial bool) {
 	}
 	if len(got) != 0 || len(got2) != 0 {
 		return evid.Fail("plaintext-with-error:"+fmt.Sprint(c.EType), "an error was returned together with plaintext bytes %x / %x", got, got2), false
+	}
+	// the other exported routes to the same decryption: the typed wrapper the messages package uses (whatever etype the
+	// EncryptedData declares - the key decides), and for rc4-hmac the rfc4757 package called directly, also with its export flag
+	for _, declared := range []int32{et, 0, 1, 3, 24, -1} {
+		if g, err := crypto.DecryptEncPart(types.EncryptedData{EType: declared, KVNO: 1, Cipher: append([]byte{}, pres...)}, ek, usage); err == nil {
+			return evid.Fail(sig+":DecryptEncPart", "crypto.DecryptEncPart (EncryptedData declaring etype %d) accepted a %s presentation and returned %x", declared, c.Tamper, g), false
+		} else if len(g) != 0 {
+			return evid.Fail("plaintext-with-error:"+fmt.Sprint(c.EType), "crypto.DecryptEncPart returned an error together with plaintext bytes %x", g), false
+		}
+	}
+	if et == ref.RC4 && eerr == nil {
+		for _, export := range []bool{false, true} {
+			if g, err := rfc4757.DecryptMessage(key, append([]byte{}, pres...), usage, export, e); err == nil {
+				return evid.Fail(sig+":rfc4757", "rfc4757.DecryptMessage(export=%v) accepted a %s presentation and returned %x", export, c.Tamper, g), false
+			}
+		}
+		// what the package encrypts with the export flag set is bound to key and usage like everything else
+		if c.Tamper == "usage" || c.Tamper == "key" || c.Tamper == "bitflip" || c.Tamper == "truncate" {
+			gk, _, gerr := genuine(c)
+			plain, _ := hex.DecodeString(c.Plain)
+			if gerr == nil {
+				if xct, err := rfc4757.EncryptMessage(gk, plain, c.Usage, true, e); err == nil {
+					xp := append([]byte{}, xct...)
+					switch c.Tamper {
+					case "bitflip":
+						xp[(c.A/8)%len(xp)] ^= 1 << uint(c.A%8)
+					case "truncate":
+						xp = xp[:c.A%len(xp)]
+					}
+					if g, err := rfc4757.DecryptMessage(gk, append([]byte{}, xct...), c.Usage, true, e); err != nil || !bytes.Equal(g, plain) {
+						return evid.Fail("control:rfc4757-export", "rfc4757.DecryptMessage(export=true) does not decrypt what rfc4757.EncryptMessage(export=true) produced: %x %v", g, err), false
+					}
+					if g, err := rfc4757.DecryptMessage(key, xp, usage, true, e); err == nil {
+						return evid.Fail(sig+":rfc4757-export", "a message encrypted by rfc4757.EncryptMessage(export=true) was decrypted by rfc4757.DecryptMessage(export=true) as a %s presentation: %x", c.Tamper, g), false
+					}
+				}
+			}
+		}
 	}
 	return evid.Pass(), false
 }
